@@ -7,8 +7,11 @@ def main():
     ok = True
     try:
         vlib.tlc_generate("GenLayout", "GenLayout", env={"SCOPE": "quick"}, key_extra="quick")
-        from checks import c03
+        from checks import c03, c06
         c03.load_cases("quick")
+        c06.load_cases("quick")
+        for f in ("axis", "multi"):
+            vlib.tlc_generate("GenSlice", "GenSlice_quick", env={"FAM": f}, key_extra=f)
     except vlib.Inconclusive as e:
         print("setup: generation failed:", str(e)[:2000])
         ok = False
